@@ -1275,8 +1275,18 @@ func specStringWithPrefix(msg any, prefix string) bool {
 	return ok && strings.HasPrefix(s, prefix)
 }
 
+// A deferred native function runs when the deferring function returns (the
+// machine is at OpReturn): what it panics with is what a direct native call
+// panics with - a Fatal stays the Fatal, any other value is a program panic.
+func specPlainPanicValue(msg any) bool {
+	_, isStr := msg.(string)
+	return isStr
+}
+
 //@ func (*VM).convertPanic
 //@   props X00 C12 C13 C05
+//@   ensures[C05] specPlainPanicValue(msg) && old(vm.fn.Body[vm.pc-1].Op) == OpReturn ==> specIsPanicErr(result)
+//@   ensures[C12] specIsFatal(msg) && old(vm.fn.Body[vm.pc-1].Op) == OpReturn ==> result == msg
 //@   ensures[C05] specRuntimeErrText(msg, "send on closed channel") && old(vm.fn.Body[vm.pc-1].Op) == OpSelect ==> specIsPanicErr(result)
 //@   ensures[C05] specRuntimeErrText(msg, "makechan: size out of range") && (old(vm.fn.Body[vm.pc-1].Op) == OpMakeChan || old(vm.fn.Body[vm.pc-1].Op) == -OpMakeChan) ==> specIsPanicErr(result)
 //@   ensures[C05] specRuntimeErrText(msg, "runtime: allocation size out of range") && old(vm.fn.Body[vm.pc-1].Op) == OpMakeSlice ==> specIsPanicErr(result)
@@ -2107,3 +2117,33 @@ func specIsEnvStringer(x any) bool { _, ok := x.(native.EnvStringer); return ok 
 //@   props X00 C13
 //@   panics allowed
 //@   panicpost[C13] specIsOut(panicval)
+
+// The text of a stop error names the error given to Stop (and the method
+// returns: it must not call itself).
+//@ func stopError.Error
+//@   props C12
+//@   opt puremethods Error
+//@   requires err.err != nil
+//@   ensures result == "stop: " + err.err.Error()
+
+// ---------------------------------------------------------------------------
+// C12, a Scriggo function called back by native code (the function literal
+// that callable.Value hands to reflect.MakeFunc): when the nested run ends with
+// a Stop or a Fatal, the callback panics with exactly that error value, so that
+// the machine that made the native call sees the Stop or the Fatal of the
+// script and not something else (a panic of the nested run becomes a fatal
+// error carrying its message).
+// ---------------------------------------------------------------------------
+
+//@ clause (*callable).Value/case lit 0
+//@   props X00 C12
+//@   opt track runFunc
+//@   panics allowed
+//@   panicpost[C12] specIsStop(lastErr("runFunc")) ==> panicval == any(lastErr("runFunc"))
+//@   panicpost[C12] specIsFatal(lastErr("runFunc")) ==> panicval == any(lastErr("runFunc"))
+
+// Formatting of panic values (reflection on interface data: outside the subset).
+//@ func panicToString
+//@   props X00
+//@   trusted
+//@   modifies nothing
